@@ -257,6 +257,16 @@ class DocModel(object):
     else:
       self._auto_remove_set.discard(record)
 
+  def get_auto_removes(self):
+    """
+    Returns a copy of the set of records marked for automatic removal, to be given back to
+    restore_auto_removes() to forget marks made since, e.g. by a trial evaluation of a formula.
+    """
+    return set(self._auto_remove_set)
+
+  def restore_auto_removes(self, saved):
+    self._auto_remove_set = set(saved)
+
   def apply_auto_removes(self):
     """
     Remove the records marked for removal.
